@@ -149,7 +149,7 @@ def kind3(ctx):
     for name_, want_op, want_ref in (("Acre", "Gt", "d0[0]"), ("Ades", "Lt", "d0[0]"), ("Bcre", "Gt", "d0[1]"),
                                      ("Bdes", "Lt", "d0[1]")):
         gots = raw_kind.get(name_, [])
-        ok = len(gots) >= 2 and all(g_[1] == want_op and ref_names.get(g_[0]) == want_ref for g_ in gots)
+        ok = len(gots) >= 1 and all(g_[1] == want_op and ref_names.get(g_[0]) == want_ref for g_ in gots)
         ctx.ob("KIND-3", f"get_excitations: {name_} lists the {'vacated reference' if want_op == 'Gt' else 'newly occupied'} "
                f"labels of spin {'alpha' if name_[0] == 'A' else 'beta'} at every producer site", ok,
                f"{len(gots)} producer sites: " + ", ".join(
@@ -220,25 +220,45 @@ def kind3(ctx):
         ctx.ob("KIND-3", f"multislater: {name_} stays in orbital-label space", bool(lst) and not conv,
                f"{len(conv)} of {len(lst)} stores are rank-converted (the second axis of G is numbered by "
                f"orbital label)", fi)
-    # parity from labels: the parity call must come before the conversion stage and use the raw lists
-    par_calls = [nd for nd in ast.walk(node) if isinstance(nd, ast.Call) and dotted(nd.func) == "parity"]
-    ok = len(par_calls) >= 4
-    good = True
-    for c in par_calls:
-        a = [ast.unparse(x) for x in c.args]
-        if len(a) != 3:
+    # parity from labels: parity(reference occupation of spin s, vacated labels of spin s, newly occupied labels of spin s),
+    # read from the value graph (the lists may be passed as table entries, as locals, through a helper ...)
+    def label_kind(t):
+        """('d0[s]', 'Gt' | 'Lt') if t is nonzero((ref_s - det_s) > 0) / (... < 0), else None"""
+        t = strip_wrappers(t)
+        if not (t.op == "call" and array_fn(t) == "nonzero" and call_parts(t)[1]):
+            return None
+        c_ = strip_wrappers(call_parts(t)[1][0])
+        if not (c_.op == "cmp" and c_.args[0] in (">", "<") and strip_wrappers(c_.args[2]).op == "const"
+                and strip_wrappers(c_.args[2]).args[0] == 0):
+            return None
+        lhs = strip_wrappers(c_.args[1])
+        if not (lhs.op == "binop" and lhs.args[0] == "-"):
+            return None
+        sp = ref_spin(lhs.args[1])
+        return (sp, "Gt" if c_.args[0] == ">" else "Lt") if sp else None
+
+    par_calls = [e for e in pev.events if e.kind == "call" and hasattr(e.data, "op") and e.data.op == "call"
+                 and (func_name(e.data) or "").split(".")[-1] == "parity"]
+    seen_p, good, detail = set(), True, []
+    for e in par_calls:
+        if e.data.uid in seen_p:
+            continue
+        seen_p.add(e.data.uid)
+        a_ = call_parts(e.data)[1]
+        if len(a_) != 3:
             good = False
             continue
-        sp = "A" if ref_names.get(a[0]) == "d0[0]" else "B" if ref_names.get(a[0]) == "d0[1]" else "?"
-        if sp == "?" or not (a[1].startswith(role[sp + "cre"]) and a[2].startswith(role[sp + "des"])):
+        sp = ref_spin(a_[0])
+        kc, kd = label_kind(a_[1]), label_kind(a_[2])
+        detail.append((sp, kc, kd))
+        if not (sp and kc == (sp, "Gt") and kd == (sp, "Lt")):
             good = False
-        if any(r in a[1] for r in rank):
-            good = False
-    first_conv = min([c[2] for lst in n_conv.values() for c in lst if c[0]] or [10**9])
-    before = all(c.lineno < first_conv for c in par_calls)
-    ctx.ob("PAIR-1", "get_excitations: parity(d0a, Acre, Ades) / parity(d0b, Bcre, Bdes) on the label lists",
-           ok and good and before, f"{len(par_calls)} parity calls, spin-matched {good}, before conversion {before}",
-           fi)
+    if not seen_p:
+        ctx.rep.note("get_excitations: no parity(...) call found; the label / spin pairing of the sign is not checked")
+    else:
+        ctx.ob("PAIR-1", "get_excitations: parity(d0a, Acre, Ades) / parity(d0b, Bcre, Bdes) on the label lists",
+               good and len(seen_p) >= 2, f"{len(seen_p)} parity calls: " + "; ".join(
+                   f"parity({sp_}, {kc_}, {kd_})" for sp_, kc_, kd_ in detail[:4]), fi)
 
 
 def parity_rule(ctx):
@@ -463,17 +483,13 @@ def producer_pairing(ctx):
     from ..model import returned_values
     rets = [v_ for _, v_ in returned_values(fi.node, top_level_only=True)]
     elts = rets[-1].elts if rets and isinstance(rets[-1], ast.Tuple) else []
-    ms = p.func("wavefunctions.multislater._calc_overlap")
-    wd_name = [prm.name for prm in ms.params][-1]
-    read = []
-    for nd in ast.walk(ms.node):
-        if isinstance(nd, ast.Subscript) and isinstance(nd.value, ast.Name) and nd.value.id == wd_name and \
-                isinstance(nd.slice, ast.Constant):
-            if nd.slice.value not in read:
-                read.append(nd.slice.value)
+    # the wave_data keys the overlap reads, through whatever helpers it is split into (interprocedural key summary)
+    from ..rules import keys as _keys
+    ka = _keys.key_analysis(p)
+    read = sorted(_keys.reads_of(ka, "wavefunctions.multislater", ["_calc_overlap"], "wave_data"))
     want = ["Acre", "Ades", "Bcre", "Bdes", "coeff", "ref_det"]
     ctx.ob("KEYS-2", "get_excitations returns one table per wave_data entry multislater reads, in the documented order",
-           len(elts) == 6 and read == want, f"returns {len(elts)} values; multislater reads {read}", fi)
+           len(elts) == 6 and read == sorted(want), f"returns {len(elts)} values; multislater reads {read}", fi)
     # names bound to np.asarray(<reference>[s]) : the two reference occupation strings
     ref_spin: Dict[str, int] = {}
     for st in ast.walk(fi.node):
